@@ -169,7 +169,7 @@ func RenderValue(v Value) string {
 		}
 		return NumberToString(v.N)
 	case KString:
-		return strconv.Quote(v.S)
+		return strings.ReplaceAll(strconv.Quote(v.S), " ", `\x20`) // (observations are split at spaces)
 	case KSymbol:
 		return "@" + v.Y.Name
 	}
